@@ -142,6 +142,10 @@ func checkC09(c *Ctx) {
 // closureModes: closures passed to withMailbox → writeLock constant (true/false) or "?"
 func (c *Ctx) withMailboxClosures(withMailbox *ssa.Function) map[*ssa.Function]string {
 	out := map[*ssa.Function]string{}
+	var lm *mbLockModel
+	if fMu := c.P.MutexField("pkg/storage/mem", "mbox"); fMu != nil {
+		lm = c.mbLocks(withMailbox, fMu)
+	}
 	for _, fn := range pkgFuncs(c.P, "pkg/storage/mem") {
 		eng.EachInstr(fn, func(in ssa.Instruction) {
 			call, ok := in.(*ssa.Call)
@@ -154,12 +158,8 @@ func (c *Ctx) withMailboxClosures(withMailbox *ssa.Function) map[*ssa.Function]s
 				return
 			}
 			mode := "?"
-			if b, isC := eng.ConstBool(args[len(args)-2]); isC {
-				if b {
-					mode = "w"
-				} else {
-					mode = "r"
-				}
+			if lm != nil {
+				mode = lm.argMode(args)
 			}
 			g := mc.Fn.(*ssa.Function)
 			if old, has := out[g]; has && old != mode {
@@ -344,55 +344,66 @@ func (c *Ctx) c09Mem(pm *pairModel) {
 		if !neverHeld(withMailbox, fcall, storeOps) {
 			shapeOK, why = false, "callback runs with the store mutex still held"
 		}
-		if !alwaysHeld(withMailbox, fcall, mbOps, mbOps.isAcq) {
+		lm := c.mbLocks(withMailbox, fMbMu)
+		if !alwaysHeld(withMailbox, fcall, mbOps, lm.isAcq) {
 			shapeOK, why = false, "callback can run without the mailbox lock"
 		}
 		// mailbox lock acquisitions must not happen under the store lock
 		eng.EachInstr(withMailbox, func(in ssa.Instruction) {
-			if mbOps.isAcq(in) && !neverHeld(withMailbox, in, storeOps) {
+			if lm.isAcq(in) && !neverHeld(withMailbox, in, storeOps) {
 				shapeOK, why = false, "mailbox lock is taken while the store mutex is held (lock-order inversion with the enforcer/visitor)"
 			}
 		})
-		// release on exit: deferred closure releases the mailbox lock
-		rel := false
-		for _, d := range eng.Defers(withMailbox) {
-			if g := eng.StaticCallee(d.Common()); g != nil {
+		// release on exit: a deferred release of the mailbox lock
+		if !lm.deferredRelease() {
+			shapeOK, why = false, "mailbox lock is not released by a deferred call"
+		}
+		// mode correspondence: the write acquisition is selected by the mode parameter, and
+		// every acquisition of the other kind lies on an edge where the mode differs
+		if lm.problem != "" {
+			shapeOK, why = false, "lock mode does not follow the mode parameter: "+lm.problem
+		} else {
+			var afns []*ssa.Function
+			afns = append(afns, withMailbox)
+			for g := range lm.acquirers {
+				afns = append(afns, g)
+			}
+			for _, g := range afns {
+				g := g
 				eng.EachInstr(g, func(in ssa.Instruction) {
-					if k, recv := lockCallKind(in); (k == "unlock" || k == "runlock") && eng.SameField(mutexField(recv), fMbMu) {
-						rel = true
+					if !mbOps.isAcq(in) {
+						return
+					}
+					k, _ := lockCallKind(in)
+					wantWrite := k == "lock"
+					found := false
+					for _, b := range g.Blocks {
+						for e := 0; e < len(b.Succs) && len(b.Succs) == 2; e++ {
+							if !eng.EdgeDominates(b, e, in.Block()) {
+								continue
+							}
+							if v, pol, ok := eng.CondTruth(b, e); ok && lm.writeBool != nil && lm.modeParamOf(p, v) == lm.modeIdx {
+								if (pol == *lm.writeBool) == wantWrite {
+									found = true
+								}
+							}
+							if rel, ok := eng.EdgeRel(b, e); ok && lm.writeConst != nil && lm.modeParamOf(p, rel.X) == lm.modeIdx {
+								if kk, isC := eng.ConstInt(rel.Y); isC {
+									isWriteEdge := (rel.Op == token.EQL && kk == *lm.writeConst)
+									isReadEdge := (rel.Op == token.NEQ && kk == *lm.writeConst) || (rel.Op == token.EQL && kk != *lm.writeConst)
+									if wantWrite && isWriteEdge || !wantWrite && isReadEdge {
+										found = true
+									}
+								}
+							}
+						}
+					}
+					if !found {
+						shapeOK, why = false, "lock mode does not follow the mode parameter"
 					}
 				})
 			}
-			if k, recv := lockCallKind(d); (k == "unlock" || k == "runlock") && eng.SameField(mutexField(recv), fMbMu) {
-				rel = true
-			}
 		}
-		if !rel {
-			shapeOK, why = false, "mailbox lock is not released by a deferred call"
-		}
-		// write-mode correspondence: Lock (write) only on the writeLock-true edge
-		eng.EachInstr(withMailbox, func(in ssa.Instruction) {
-			if !mbOps.isAcq(in) {
-				return
-			}
-			k, _ := lockCallKind(in)
-			wantTrue := k == "lock"
-			found := false
-			for _, b := range withMailbox.Blocks {
-				for e := 0; e < len(b.Succs) && len(b.Succs) == 2; e++ {
-					v, pol, ok := eng.CondTruth(b, e)
-					if !ok || !eng.EdgeDominates(b, e, in.Block()) {
-						continue
-					}
-					if derivesFromParamNamed(v, withMailbox, "writeLock") && pol == wantTrue {
-						found = true
-					}
-				}
-			}
-			if !found {
-				shapeOK, why = false, "lock mode does not follow the writeLock parameter"
-			}
-		})
 	}
 	if shapeOK {
 		r.Ok("C09/GUARD/mem", "withMailbox-shape", p.Pos(withMailbox.Pos()), "store mutex released before the mailbox lock; callback under the mailbox lock in the requested mode; deferred unlock")
